@@ -27,7 +27,57 @@ def sh(cmd, timeout=7200, env=None, cwd=None):
     return r.returncode, r.stdout+r.stderr
 
 
+def rerun_stored(only_own=True):
+    """run the checks again on the patches kept under /verif/benign (scratch copy of the repository)"""
+    import glob
+    scratch = '/tmp/benign_repo_all'
+    sh(f'git -C /repo worktree remove --force {scratch}')
+    rc, out = sh(f'git -C /repo worktree add --detach {scratch} HEAD')
+    if rc != 0:
+        print(out)
+        return 2
+    ev_dir, rp_dir = scratch+'_evidence', scratch+'_replays'
+    env = dict(VERIF_REPO=scratch, VERIF_EVIDENCE_DIR=ev_dir, VERIF_REPLAY_DIR=rp_dir, VERIF_SEED='0')
+    bad = 0
+    try:
+        for d in sorted(glob.glob(os.path.join(VERIF, 'benign', '*'))):
+            sid = os.path.basename(d)
+            prop = sid.split('_')[0]
+            rc, out = sh(f'git apply {d}/patch.diff', cwd=scratch)
+            if rc != 0:
+                print(f'{sid}: patch does not apply')
+                continue
+            res = {}
+            try:
+                for c in ([prop] if only_own else RELATED[prop]):
+                    shutil.rmtree(rp_dir, ignore_errors=True)
+                    rc, out = sh(f'/verif/.venv/bin/python -m checks.run {c} --tier quick', env=env, cwd=VERIF)
+                    viol = re.findall(r'VIOLATION property=(\S+) replay=(\S+)', out)
+                    status = 'silent' if rc == 0 and not viol else ('FALSE ALARM' if viol else f'exit {rc}')
+                    bad += status != 'silent'
+                    errs = [l for l in out.split('\n') if 'harness_error:' in l][:3]
+                    res[c] = dict(status=status, exit=rc, last_line=out.strip().split('\n')[-1][:200], errors=errs)
+                    print(f'{sid}: {c}: {status} {errs[:1] if rc else ""}', flush=True)
+            finally:
+                sh('git checkout -- .', cwd=scratch)
+                sh('git clean -fdq adsg_core', cwd=scratch)
+            old = {}
+            rj = os.path.join(d, 'result.json')
+            if os.path.exists(rj):
+                old = json.load(open(rj))
+            old['final_rerun'] = res
+            json.dump(old, open(rj, 'w'), indent=1)
+    finally:
+        sh(f'git -C /repo worktree remove --force {scratch}')
+        shutil.rmtree(ev_dir, ignore_errors=True)
+        shutil.rmtree(rp_dir, ignore_errors=True)
+    print('not silent:', bad)
+    return 0
+
+
 def main():
+    if sys.argv[1] == '--rerun-stored':
+        return rerun_stored(only_own='--related' not in sys.argv)
     wt = sys.argv[1].rstrip('/')
     args = [a for a in sys.argv[2:] if not a.startswith('--')]
     all_checks = '--all-checks' in sys.argv
